@@ -468,6 +468,71 @@ def run_polars_histories(rep, rng, n):
         rep.evaluations += 1
 
 
+def run_multiindex_histories(rep, rng, n):
+    """MultiIndex schemas (coercion per level, on the MultiIndex, on the frame; stand-alone, inside a DataFrameSchema, inside
+    a SeriesSchema; component-level transformations): repeated validations leave the schema and its verdicts as they were"""
+    import pandera as pa
+    for _ in range(n):
+        lvl_coerce = [rng.random() < 0.6, rng.random() < 0.6]
+        mi_coerce = rng.random() < 0.4
+        mk_mi = lambda: pa.MultiIndex([pa.Index(int, coerce=lvl_coerce[0], name="i"),  # noqa: E731
+                                       pa.Index(str, pa.Check.isin(["x", "y", "7"]), coerce=lvl_coerce[1], name="j")],
+                                      coerce=mi_coerce)
+        entry = rng.choice(["DataFrameSchema", "SeriesSchema", "MultiIndex"])
+        if entry == "DataFrameSchema":
+            schema = pa.DataFrameSchema({"v": pa.Column(int)}, index=mk_mi(), coerce=rng.random() < 0.3)
+        elif entry == "SeriesSchema":
+            schema = pa.SeriesSchema(int, index=mk_mi(), name="v")
+        else:
+            schema = mk_mi()
+        ixs = [pd.MultiIndex.from_arrays([[1, 2], ["x", "y"]], names=["i", "j"]),
+               pd.MultiIndex.from_arrays([["1", "2"], ["x", "y"]], names=["i", "j"]),        # needs coercion of level i
+               pd.MultiIndex.from_arrays([[1, 2], ["x", 7]], names=["i", "j"]),             # needs coercion of level j
+               pd.MultiIndex.from_arrays([[1, 2], ["x", "bad"]], names=["i", "j"])]         # fails the check
+        frames = [pd.DataFrame({"v": [1, 2]}, index=ix) for ix in ixs]
+        obj = (lambda f: f) if entry != "SeriesSchema" else (lambda f: f["v"])
+
+        def vd(f):
+            with warnings.catch_warnings():
+                warnings.simplefilter("ignore")
+                try:
+                    schema.validate(obj(f.copy()))
+                    return "ok"
+                except (pa.errors.SchemaError, pa.errors.SchemaErrors):
+                    return "reject"
+                except Exception as e:  # noqa: BLE001
+                    return "crash:" + type(e).__name__
+        base = fp(schema)
+        snap = copy.deepcopy(schema)
+        v0 = None
+        hist = []
+        for step in range(rng.randint(2, 5)):
+            fi = rng.randrange(len(frames))
+            lazy = rng.random() < 0.5
+            hist.append([fi, lazy])
+            with warnings.catch_warnings():
+                warnings.simplefilter("ignore")
+                try:
+                    schema.validate(obj(frames[fi].copy()), lazy=lazy)
+                except Exception:  # noqa: BLE001
+                    pass
+            vs = [vd(f) for f in frames]
+            v0 = v0 or vs
+            now = fp(schema)
+            rep.count(f"multiindex-history:{entry}")
+            case = {"mode": "multiindex-history", "entry": entry, "level_coerce": lvl_coerce, "mi_coerce": mi_coerce, "history": hist}
+            if now != base or schema != snap:
+                paths = diff_paths(json.loads(base), json.loads(now))
+                rep.property_failure(case, f"{entry} with a MultiIndex: after validating, the schema differs from its snapshot at {paths}")
+                break
+            if vs != v0:
+                rep.property_failure(case, f"{entry} with a MultiIndex: verdicts on the probe frames changed over the history: "
+                                           f"{v0} then {vs}")
+                break
+        rep.case({"mode": "multiindex-history", "entry": entry, "history": hist}, nontrivial=True)
+        rep.evaluations += 1
+
+
 def run(tier, replay=None):
     rep = Report(PROP, tier)
     regenerate(("skeletons", "schemamutation"))
@@ -476,9 +541,10 @@ def run(tier, replay=None):
     rng = rng_for(PROP)
     if replay:
         rc_ = json.loads(open(replay).read())["case"]
-        if rc_.get("mode") in ("model", "polars-history"):
+        if rc_.get("mode") in ("model", "polars-history", "multiindex-history"):
             run_models(rep, rng_for(PROP, "models"), 60)
             run_polars_histories(rep, rng_for(PROP, "polars"), 80)
+            run_multiindex_histories(rep, rng_for(PROP, "multiindex"), 80)
             return rep.finish(rule="replay of the model / polars history sweeps (deterministic under VERIF_SEED)")
         replay_one(rep, rc_, rng)
         return rep.finish(rule="replay")
@@ -494,6 +560,7 @@ def run(tier, replay=None):
             rep.count("harness-exception:" + type(e).__name__)
     run_models(rep, rng_for(PROP, "models"), 60 if tier == "quick" else 1500)
     run_polars_histories(rep, rng_for(PROP, "polars"), 80 if tier == "quick" else 2000)
+    run_multiindex_histories(rep, rng_for(PROP, "multiindex"), 80 if tier == "quick" else 2000)
     return rep.finish(
         rule="random operation histories (1-8 operations out of validate passing/failing/eager/lazy, to_yaml, to_json, "
              "to_script, statistics, repr/str/==, copy/deepcopy, every transforming method, coerce_dtype, strategy, "
